@@ -11,7 +11,8 @@ from ..irpasses import PASS_NAMES, make_pass
 PID = "C02"
 RULE = (
     "Hypothesis-generated IR modules (vf/genir.py) x configuration (one single pass | random pass sequence | "
-    "optimize(level) for 0,1,2,s) x argument vectors for every function; the reference interpreter vf/irsem.py "
+    "optimize(level) for 0,1,2,s) x argument vectors for every function, and (a quarter of the cases) front-end produced "
+    "modules: vf/gencc.py C units through c_to_ir; the reference interpreter vf/irsem.py "
     "observes (return value, final bytes of globals and caller buffers, external call trace) before and after; "
     "executions whose ORIGINAL run is undefined (uninitialised read, division by zero, out-of-range shift, fuel, "
     "address dependent) are discarded; undefined behaviour only in the optimised run is a failure. "
@@ -46,7 +47,59 @@ def apply_config(m, config):
             make_pass(pn).run(m)
 
 
+def run_c_case(case, stats=None):
+    """Front-end produced module: generated C unit -> c_to_ir -> configuration; reference interpreter before/after."""
+    import io
+
+    from ppci.api import c_to_ir
+
+    from .. import cc_oracle
+
+    program, tests, config = case["program"], case["tests"], case["config"]
+
+    def compile_it():
+        try:
+            return c_to_ir(io.StringIO(program["src"]), "x86_64")
+        except Exception as e:
+            raise Discard("front-end rejects or crashes: %s" % type(e).__name__)
+
+    m0, m1 = compile_it(), compile_it()
+    before = irwf.dump(m1)
+    try:
+        apply_config(m1, config)
+    except Exception as e:
+        raise Discard("pass raised %s (C03's domain)" % type(e).__name__)
+    changed = irwf.dump(m1) != before
+    defined = 0
+    for tst in tests:
+        fname = program["funcs"][tst[0]]["name"]
+        try:
+            ref = cc_oracle.run_irsem(m0, program, tst, irsem)
+        except irsem.Undef as e:
+            if stats is not None:
+                stats.discard("original undefined: " + e.reason)
+            continue
+        except irsem.Unsupported as e:
+            if stats is not None:
+                stats.discard("unsupported: " + e.reason)
+            continue
+        defined += 1
+        try:
+            got = cc_oracle.run_irsem(m1, program, tst, irsem)
+        except irsem.Undef as e:
+            return ("%s%r: defined before, undefined after %s: %s" % (fname, tst[1], config, e.reason), changed, defined)
+        except irsem.Unsupported:
+            continue
+        for key in ("ret", "ext", "obs", "buf"):
+            a, b = ref[key], got[key]
+            if a != b and "ADDR" not in str(a):
+                return ("%s%r differs after %s: %s: expected %r, got %r" % (fname, tst[1], config, key, a, b), changed, defined)
+    return (None, changed, defined)
+
+
 def run_case(case, stats=None):
+    if "program" in case:
+        return run_c_case(case, stats)
     desc, config, calls = case["module"], case["config"], case["calls"]
     try:
         m0 = genir.build(desc)
@@ -117,6 +170,18 @@ def case_strategy(draw):
     return {"module": desc, "config": config, "calls": calls}
 
 
+@st.composite
+def c_case_strategy(draw):
+    from .. import gencc
+
+    p = draw(gencc.programs(gencc.Options(max_funcs=3, max_stmts=6)))
+    tests = []
+    for fi, f in enumerate(p["funcs"]):
+        for v in gencc.arg_vectors(draw, f, 2):
+            tests.append([fi, v])
+    return {"program": p, "tests": tests, "config": draw(config_strategy())}
+
+
 def _cfgname(config):
     if "level" in config:
         return "level:" + config["level"]
@@ -132,13 +197,20 @@ def _worker(arg):
     def prop(case):
         msg, changed, defined = run_case(case, stats)
         nt = changed and defined > 0
+        if "program" in case:
+            stats.case((str(case["config"]), case["program"]["src"]) if nt else None, nt,
+                       {"config": case["config"], "source": "c_to_ir", "src": case["program"]["src"][:800]} if nt else None,
+                       classes=["frontend:" + _cfgname(case["config"]) + (":changed" if changed else ":unchanged"), "defined_calls:%d" % min(defined, 3)])
+            return msg
         stats.case((str(case["config"]), str(case["module"])[:3000]) if nt else None, nt,
                    {"config": case["config"], "calls": case["calls"][:2], "instructions": genir.count_instructions(case["module"]),
                     "last_function": case["module"]["functions"][-1]} if nt else None,
                    classes=[_cfgname(case["config"]) + (":changed" if changed else ":unchanged"), "defined_calls:%d" % min(defined, 3)])
         return msg
 
-    fails = hyp_search(case_strategy(), prop, n, seed, stats, classify=classify)
+    fails = hyp_search(case_strategy(), prop, n - n // 4, seed, stats, classify=classify)
+    if not fails:
+        fails = hyp_search(c_case_strategy(), prop, n // 4, seed + 1, stats, classify=classify)
     return stats, fails
 
 
